@@ -190,6 +190,10 @@ func TestSim(t *testing.T) {
 	}
 	verifh.Drive(t, "A", func(_ *testing.T, rt *rapid.T) {
 		p := GenPlan(rt, prop)
+		if prop == "C11" {
+			// only the property about what every call returns may read a dead process as a verdict
+			verifh.Pending("A", p)
+		}
 		if v := one(p); v != nil {
 			verifh.Report(rt, "A", p, v)
 		}
